@@ -120,19 +120,24 @@ def run_case(case):
     res = sut.run_goals(goals, prelude="\n".join(prelude), outs=6)
     n = 0
     nt = False
-    for (route, a, b, klass, exp, chained), r in zip(meta, res):
-        n += 1
+    state = {"n": 0, "nt": False}
+
+    def one(route, a, b, klass, exp, chained, r):
+        n = state["n"]
+        nt = state["nt"]
+        state["n"] += 1
+        n = state["n"]
         COUNTERS["route_%s_%s" % (route, klass)] += 1
         va, vb = T.variables(a), T.variables(b)
         if (va and vb) or len(va) < sum(1 for _ in _var_occ(a)) or len(vb) < sum(1 for _ in _var_occ(b)):
-            nt = True
+            state["nt"] = nt = True
         pair = "%s  ~  %s" % (T.txt(a), T.txt(b))
         if isinstance(r, dict):
             if r["kind"] == "problog_error" and klass in ("occ", "occ_indirect", "no_or_occ"):
-                continue
+                return None
             if r["exc"] == "OccursCheck" and klass == "no" and U.shares_vars(T.tup(a), T.tup(b)):
                 # not unifiable anyway; the engine met an occurs violation before it met the clash
-                continue
+                return None
             return viol("unify:%s:%s:error:%s" % (route, klass, r["exc"]), "%s via %s raised %s (reference class %s)" % (
                 pair, route, sut.describe(r), klass), sample=pair, nontrivial=nt, n=n)
         succ = len(r) > 0
@@ -141,14 +146,14 @@ def run_case(case):
             if want is not None and succ != want:
                 return viol("unify:neq:%s%s" % (klass, "|negative-int-constant" if (_has_negint(a) or _has_negint(b)) else ""), "%s: \\= %s but the terms are %s" % (
                     pair, "succeeds" if succ else "fails", "unifiable" if klass == "unif" else "not unifiable"), sample=pair, n=n)
-            continue
+            return None
         if klass in ("no", "occ", "occ_indirect", "no_or_occ"):
             if succ:
                 return viol("unify:%s:%s-succeeds" % (route, klass), "%s via %s succeeds with %s but the terms are %s" % (
                     pair, route, [str(x) for x in r[0]], {"no": "not unifiable", "occ": "unifiable only with a cyclic binding",
                                                          "occ_indirect": "unifiable only with a cyclic binding (cycle through two or more bindings)",
                                                          "no_or_occ": "not unifiable"}[klass]), sample=pair, n=n)
-            continue
+            return None
         if not succ:
             return viol("unify:%s:unifiable-fails" % route, "%s via %s fails but an mgu exists" % (pair, route), sample=pair, n=n)
         if len(r) > 1:
@@ -169,6 +174,19 @@ def run_case(case):
                 kfc = "|repeated-head-and-call-vars"
             return viol("unify:%s:wrong-binding%s" % (route, kfc), "%s via %s: bindings %s differ from the mgu %s" % (
                 pair, route, _show(got), _show(exp)), sample=pair, n=n)
+        return None
+    vs = []
+    for (route, a, b, klass, exp, chained), r in zip(meta, res):
+        v = one(route, a, b, klass, exp, chained, r)
+        if v is not None:
+            vs.append(v)
+    n, nt = state["n"], state["nt"]
+    if vs:
+        first = vs[0]
+        first["extra_viols"] = [[x["sig"], x["detail"]] for x in vs[1:]]
+        first["nontrivial"] = nt
+        first["n"] = n
+        return first
     return ok(nontrivial=nt, feat=[case["mode"]], n=n, sample=[[T.txt(a), T.txt(b)] for a, b in case["pairs"][:3]])
 
 
